@@ -38,6 +38,75 @@ func vecOf(t ScalarType, xs []Scalar) Vector {
 	return v
 }
 
+// curStorage is the storage kind of the evaluation point demanded by the case
+// being replayed (dense | sparse | sparse0 | view); LogPdf must not depend on it.
+var curStorage = "dense"
+
+// pointVec stores the coordinates of a vector valued evaluation point as demanded.
+func pointVec(t ScalarType, xs []Scalar) Vector {
+	switch curStorage {
+	case "sparse": // only the non-zero coordinates are stored
+		v := NullSparseVector(t, len(xs))
+		for i, x := range xs {
+			if x.GetFloat64() != 0.0 {
+				v.At(i).Set(x)
+			}
+		}
+		return v
+	case "sparse0": // every coordinate is stored, zeros included
+		v := NullSparseVector(t, len(xs))
+		for i, x := range xs {
+			v.At(i).Set(x)
+		}
+		return v
+	case "view": // a window onto a longer dense vector
+		big := NullDenseVector(t, len(xs)+3)
+		for i := 0; i < big.Dim(); i++ {
+			big.At(i).SetFloat64(7.5)
+		}
+		v := big.Slice(2, 2+len(xs))
+		for i, x := range xs {
+			v.At(i).Set(x)
+		}
+		return v
+	}
+	return vecOf(t, xs)
+}
+
+// pointMat converts a dense matrix valued evaluation point to the demanded storage.
+func pointMat(m Matrix) Matrix {
+	t := m.ElementType()
+	r, c := m.Dims()
+	switch curStorage {
+	case "sparse":
+		v := NullSparseMatrix(t, r, c)
+		for i := 0; i < r; i++ {
+			for j := 0; j < c; j++ {
+				if m.At(i, j).GetFloat64() != 0.0 {
+					v.At(i, j).Set(m.At(i, j))
+				}
+			}
+		}
+		return v
+	case "view": // a window onto a larger dense matrix
+		big := NullDenseMatrix(t, r+2, c+3)
+		br, bc := big.Dims()
+		for i := 0; i < br; i++ {
+			for j := 0; j < bc; j++ {
+				big.At(i, j).SetFloat64(7.5)
+			}
+		}
+		v := big.Slice(1, 1+r, 2, 2+c)
+		for i := 0; i < r; i++ {
+			for j := 0; j < c; j++ {
+				v.At(i, j).Set(m.At(i, j))
+			}
+		}
+		return v
+	}
+	return m
+}
+
 func sym2(t ScalarType, a11, a12, a22 Scalar) Matrix {
 	m := NullDenseMatrix(t, 2, 2)
 	m.At(0, 0).Set(a11)
@@ -128,7 +197,7 @@ func wrapScalar(d st.ScalarPdf) *obj {
 
 func wrapVector(d st.VectorPdf) *obj {
 	o := &obj{}
-	o.logpdf = func(r Scalar, x []Scalar) error { return d.LogPdf(r, vecOf(x[0].Type(), x)) }
+	o.logpdf = func(r Scalar, x []Scalar) error { return d.LogPdf(r, pointVec(x[0].Type(), x)) }
 	o.get = d.GetParameters
 	o.set = d.SetParameters
 	o.stype = d.ScalarType
@@ -157,7 +226,7 @@ func wrapMatrix(d st.MatrixPdf) *obj { return wrapMatrixWith(d, matOf) }
 
 func wrapMatrixWith(d st.MatrixPdf, mk func([]Scalar) Matrix) *obj {
 	o := &obj{}
-	o.logpdf = func(r Scalar, x []Scalar) error { return d.LogPdf(r, mk(x)) }
+	o.logpdf = func(r Scalar, x []Scalar) error { return d.LogPdf(r, pointMat(mk(x))) }
 	o.get = d.GetParameters
 	o.set = d.SetParameters
 	o.stype = d.ScalarType
